@@ -49,6 +49,10 @@ def generate(rng, tier):
     route = rng.choice(["sizes", "sizes", "sizes", "data", "load_fil"]) if not big else "sizes"
     spec = {"route": route, "geom": {"fchans": shape[1], "tchans": shape[0], "df": df, "dt": dt, "fch1": 6e9, "ascending": rng.random() < 0.5},
             "seed": rng.randrange(1 << 30), "t_start": 0.0, "mjd": None, "source_name": None, "content_seed": rng.randrange(1 << 30)}
+    if route != "sizes" and rng.random() < 0.3:
+        # preloaded data with zero deviation and a non-zero mean (a featureless pedestal)
+        spec["content"] = "constant"
+        spec["content_value"] = rng.choice([7.25, 1.0, 1e4])
     ops = []
     for _ in range(rng.randint(1, 7) if not big else rng.randint(1, 3)):
         r = rng.random()
@@ -57,6 +61,12 @@ def generate(rng, tier):
             ops.append({"op": "noise", "kind": kind, "x_mean": rng.choice([1.0, 10.0, 5.5, 1e5, 0.01]),
                         "x_std": rng.choice([1.0, 0.5, 3.0, 250.0]), "x_min": rng.choice([0.0, 9.0, -1.0, 5.0]),
                         "observe": rng.random() < 0.6})
+            if not big and kind in ("gaussian", "normal") and rng.random() < 0.15:
+                # degenerate but valid parameters: a zero-deviation pedestal, or zero-mean noise
+                if rng.random() < 0.6:
+                    ops[-1]["x_std"] = 0.0
+                else:
+                    ops[-1]["x_mean"] = 0.0
         elif r < 0.62:
             n = rng.choice([1, 2, 3, 5, 8])
             ops.append({"op": "from_obs", "kind": rng.choice(["chi2", "gaussian", "gaussian"]), "n": n, "n_std": rng.choice([n, n, n + 2]),
